@@ -79,6 +79,22 @@ pub(crate) mod stubs {
         pub(crate) static EXPECT_FIRE: std::cell::Cell<u8> = std::cell::Cell::new(0);
     }
 
+    /// `Vec::clear` / `Vec::truncate` without running the elements' drop glue
+    /// (used only by the C16 harnesses: dropping a `Thread` walks hashbrown's
+    /// SIMD group scan for its thread-local map, which is intractable here;
+    /// what `clear` does to the *set* is kept, destructors are not modelled).
+    #[cfg(kani)]
+    pub(crate) fn vec_clear_no_drop<T, A: std::alloc::Allocator>(v: &mut Vec<T, A>) {
+        unsafe { v.set_len(0) }
+    }
+
+    #[cfg(kani)]
+    pub(crate) fn vec_truncate_no_drop<T, A: std::alloc::Allocator>(v: &mut Vec<T, A>, len: usize) {
+        if len < v.len() {
+            unsafe { v.set_len(len) }
+        }
+    }
+
     /// `dbg!` in rt/mutex.rs, rwlock.rs, mpsc.rs, notify.rs prints through
     /// `std::io::_eprint`; output is irrelevant.
     pub(crate) fn eprint(_args: std::fmt::Arguments<'_>) {}
